@@ -29,5 +29,6 @@ func main() {
 	}
 	write("GenBodies.v", genBodies(*repo))
 	write("GenSkeletons.v", genSkeletons(*repo))
+	write("GenTables.v", genTables(*repo))
 	fmt.Println("srcextract: ok")
 }
